@@ -78,7 +78,11 @@ def run(chk):
         if all(prog.bodies[m].trait_item in ("std::clone::Clone::clone", "std::cmp::PartialEq::eq", "std::fmt::Debug::fmt") for m in scc):
             continue
         n += 1
-        key = "R03-rec::" + " + ".join(sorted(members))
+        # the cycle is identified by its members on the reviewed tree: a helper split off one of them later is the same cycle
+        from . import sym as _sym
+        kn = _sym.known_functions()
+        kmem = [m for m in members if kn is None or m in kn]
+        key = "R03-rec::" + " + ".join(sorted(kmem or members))
         # a depth bound: some member compares an integer parameter/field against a constant and the comparison guards the recursive call
         bounded = False
         for m in scc:
